@@ -67,6 +67,9 @@ func runAPCase(t *testing.T, m *Model, rng *RNG, c apCase, replay bool) (goRes s
 		c.crealm = fmt.Sprintf("R%d.%s", id, c.crealm) // same reason, for the empty client name
 	}
 	synctest.Test(t, func(t *testing.T) {
+		if c.frac > 0 {
+			time.Sleep(c.frac) // (the fake clock starts on a whole second)
+		}
 		now := time.Now()
 		ap, b, err := mintAPReq(m, rng, c, now)
 		if err != nil {
@@ -244,6 +247,13 @@ func c01Defects() []defect {
 		{"start=now+d", func(c *apCase, r *RNG) { c.startOff = c.skew }},
 		{"start=now+d+1s", func(c *apCase, r *RNG) { c.startOff = c.skew + time.Second }},
 		{"end=now-d", func(c *apCase, r *RNG) { c.endOff = -c.skew }},
+		// the clock is not on a whole second (ticket times are): a ticket that ended d + 0.3 s ago has ended
+		{"clock+.3s,end=now-d", func(c *apCase, r *RNG) { c.frac = 300 * time.Millisecond; c.endOff = -c.skew }},
+		{"clock+.999999s,end=now-d", func(c *apCase, r *RNG) { c.frac = 999999 * time.Microsecond; c.endOff = -c.skew }},
+		{"clock+.3s,end=now-d+1s", func(c *apCase, r *RNG) { c.frac = 300 * time.Millisecond; c.endOff = -c.skew + time.Second }},
+		{"clock+.3s,start=now+d+1s", func(c *apCase, r *RNG) { c.frac = 300 * time.Millisecond; c.startOff = c.skew + time.Second }},
+		{"clock+.7s,start=now+d", func(c *apCase, r *RNG) { c.frac = 700 * time.Millisecond; c.startOff = c.skew }},
+		{"clock+.5s", func(c *apCase, r *RNG) { c.frac = 500 * time.Millisecond }},
 		{"end=now-d-1s", func(c *apCase, r *RNG) { c.endOff = -c.skew - time.Second }},
 		{"ctime=now-d", func(c *apCase, r *RNG) { c.ctimeOff = -c.skew }},
 		{"ctime=now-d-1us", func(c *apCase, r *RNG) { c.ctimeOff = -c.skew - time.Microsecond }},
